@@ -331,6 +331,10 @@ fn floats<T: Tier + Dom<M = Sh>>(rep: &mut Report) {
         rads.push(10f64.powi(-k) * 3.0);
         rads.push(-(10f64.powi(-k)));
     }
+    // ... and every second power of two down to 2^-40 (a band between two decades)
+    for k in (2..=40).step_by(2) {
+        rads.push(if k % 4 == 0 { 1.0 } else { -1.0 } * 2f64.powi(-k) * 1.25);
+    }
     for c in [PI / 2.0, PI, 2.0 * PI] {
         for d in [1e-4, -1e-4, 1e-2] {
             rads.push(c + d);
